@@ -26,6 +26,7 @@ func VMask(name string) Mask      { return vMask("x" + name) }
 func VBit(m *Mask, j uint8) bool  { return hBit(m, j) }
 func VIDInRange(j uint8) bool     { return hIDInRange(j) }
 func VMaskBits() int              { return hMaskBits }
+func VID(j uint8) ID              { return ID{j} }
 
 func hID(name string) uint8 {
 	j := vU8(name)
